@@ -7,6 +7,11 @@ widenings and narrowings), flip its nullability, put a null in each position,
 name an unknown enum member, send 0 or 2 rows - or left intact; it is sent by a
 raw peer over a simulated pipe-family connection and as a raw POST to a
 simulated HTTP worker.  Some methods themselves raise TypeError / ArrowInvalid.
+The request travels inline, through a shared-memory pointer (pipe / unix: the
+wire carries a zero-row pointer batch, the one-row payload sits in a simulated
+segment) or through an external-location pointer (both transports; payload in
+a simulated storage node); the pointer batch carries either the declared schema
+or the payload's, the payload carries the perturbation.
 
 Oracle (event order inside one request; the generated implementation records
 every invocation): an invocation implies the request conformed field-for-field
@@ -20,19 +25,25 @@ contributes nothing here; the simulation contributes the dispatch paths.
 
 from __future__ import annotations
 
+import hashlib
 import io
 from typing import Any
 
 import pyarrow as pa
 from pyarrow import ipc
 
+import vgi_rpc.external as ext_mod
+import vgi_rpc.shm as shm_mod
 from checks.c05 import empty_input_stream, read_one_stream
 from dst.harness import RunCtx
 from dst.sched import Scheduler
 from progen import rt
 from progen.gen import MethodSpec, build_service
 from sims import s1, s2, wire
+from sims.s7_shm import FakeShmHost
 from vgi_rpc import RpcServer
+from vgi_rpc.external import ExternalLocationConfig, make_external_location_batch
+from vgi_rpc.shm import ShmSegment, make_shm_pointer_batch
 
 PROPERTY = "C06"
 LEVEL = "exploration"
@@ -46,9 +57,14 @@ RULE = ("seeded (method, single perturbation of a valid request, behaviour) trip
 COMPONENTS = {
     "real": ["_read_request", "_deserialize_params", "_validate_call_signature", "_validate_params", "RpcServer.serve_one", "HTTP _app_unary/"
              "_app_stream request validation + status mapping"],
-    "stub": ["OS pipes/sockets -> dst.chan", "HTTP server -> direct WSGI call"],
+    "stub": ["OS pipes/sockets -> dst.chan", "HTTP server -> direct WSGI call", "SharedMemory -> in-memory registry", "external storage + fetch_url -> "
+             "in-memory blob store"],
 }
-ASSUMPTIONS = ["the scheduler adds nothing for this property"]
+ASSUMPTIONS = ["the scheduler adds nothing for this property",
+               "over shared memory a schema with dictionary columns travels without its schema message, so there the pointer batch's schema IS "
+               "the request's schema (payload bytes written under another schema are C05's subject)",
+               "an external-location pointer whose declared schema differs from its payload's is refused by the resolver; over HTTP that "
+               "refusal may be 200 + X-VGI-RPC-Error instead of 400 (it is not dispatched either way)"]
 
 METHODS = [
     MethodSpec(name="u_args", kind="unary", params=[("a0", "int"), ("a1", "str"), ("a2", "optint"), ("a3", "float")], ret="str"),
@@ -167,6 +183,22 @@ def perturb(ch: Any, kind: str, fields: list[pa.Field], vals: list[Any], label: 
     return fields, cols, detail
 
 
+def payload_batch(fields: list[pa.Field], cols: list[list[Any]]) -> pa.RecordBatch:
+    schema = pa.schema(fields)
+    nrows = len(cols[0]) if cols else 1
+    if fields:
+        return pa.RecordBatch.from_arrays([to_array(f, c) for f, c in zip(fields, cols)], schema=schema)
+    return pa.RecordBatch.from_struct_array(pa.array([{}] * nrows, type=pa.struct([])))
+
+
+def build_pointer(method: str, pointer: pa.RecordBatch, pointer_md: pa.KeyValueMetadata, extra: dict[bytes, bytes] | None = None) -> bytes:
+    md = {b"vgi_rpc.method": method.encode(), b"vgi_rpc.request_version": b"1", **dict(pointer_md.items()), **(extra or {})}
+    buf = io.BytesIO()
+    with ipc.new_stream(buf, pointer.schema) as w:
+        w.write_batch(pointer, custom_metadata=pa.KeyValueMetadata(md))
+    return buf.getvalue()
+
+
 def build(method: str, fields: list[pa.Field], cols: list[list[Any]]) -> bytes:
     schema = pa.schema(fields)
     nrows = len(cols[0]) if cols else 1
@@ -205,6 +237,8 @@ def run(ctx: RunCtx) -> None:
         spec = METHODS[ch.choose(len(METHODS), "method")]
         kind = PERTURB[ch.choose(len(PERTURB), "perturb")]
         tag = 300 + ch.choose(50, "tag")
+        route = ["inline", "inline", "shm", "external"][ch.choose(4, "route")]
+        ptr_schema_declared = bool(ch.choose(2, "pointer.schema")) if route != "inline" else True
         beh = rt.Beh(kind=spec.kind if spec.kind == "unary" else "producer")
         raised = None
         if kind == "method_raises":
@@ -225,9 +259,24 @@ def run(ctx: RunCtx) -> None:
             ctx.log.add("unbuildable", kind, detail, type(exc).__name__)
             ctx.case_key = ("unbuildable", kind, detail)
             return
-        ctx.case_key = (spec.name, kind, detail, raised)
+        ctx.case_key = (spec.name, kind, detail, raised, route, ptr_schema_declared)
         ctx.nontrivial = kind != "none"
-        ctx.sample = {"method": spec.name, "perturbation": kind, "detail": detail, "conforms": ok, "method_raises": raised,
+        payload = payload_batch(fields, cols)
+        ptr_schema = pa.schema(decl) if ptr_schema_declared else payload.schema
+        if route == "shm" and any(pa.types.is_dictionary(f.type) for f in list(ptr_schema) + list(payload.schema)):
+            # with dictionary columns the segment holds schema-less messages and the POINTER's schema is the request's schema:
+            # a payload written under another schema is then not a perturbed request but arbitrary bytes (that is C05's
+            # byzantine-peer territory), so here the pointer says what the payload is
+            ptr_schema = payload.schema
+        blob_io = io.BytesIO()
+        with ipc.new_stream(blob_io, payload.schema) as bw:
+            bw.write_batch(payload)
+        blob = blob_io.getvalue()
+        storage = s2.SimStorage(ch)
+        ext_cfg = ExternalLocationConfig(storage=storage, retry_delay_seconds=0.0)
+        ch.probe(f"route:{route}")
+        ctx.sample = {"method": spec.name, "perturbation": kind, "detail": detail, "conforms": ok, "method_raises": raised, "route": route,
+                      "pointer_schema": "declared" if ptr_schema_declared else "payload",
                       "schema": [(f.name, str(f.type), f.nullable) for f in fields]}
         ch.probe(f"perturb:{kind}")
         site = f"{kind}:{detail.split(':')[0] if kind in ('retype',) else ''}".rstrip(":")
@@ -235,6 +284,8 @@ def run(ctx: RunCtx) -> None:
             site = "retype:" + detail.split(":", 1)[1]
         if kind == "null":
             site = "null:" + detail.split(":")[1]
+        if route != "inline":
+            site = f"via-{route}:{site}"
 
         def invoked_since(mark: int) -> list[tuple]:
             return [e for e in world.rec[mark:] if e[0] == "invoke" and e[1] == spec.name]
@@ -265,13 +316,32 @@ def run(ctx: RunCtx) -> None:
 
         # ---------------------------------------------------------------- socket leg
         sched = Scheduler(ctx.ch, ctx.log, wall_limit=60.0)
-        server = RpcServer(svc.protocol, svc.impl_cls(), server_id="srv")
+        server = RpcServer(svc.protocol, svc.impl_cls(), server_id="srv", external_location=ext_cfg if route == "external" else None)
         out: dict[str, Any] = {}
+        tkinds = ["pipe", "unix"] if route == "shm" else ["pipe", "unix", "tcp"]
+        tkind = tkinds[ch.choose(len(tkinds), "transport")]
+        host = FakeShmHost()
+        saved_shm, saved_fetch = shm_mod.SharedMemory, ext_mod.fetch_url
+        shm_mod.SharedMemory = host.SharedMemory  # type: ignore[assignment, misc]
+        ext_mod.fetch_url = storage.fetch_url  # type: ignore[assignment]
+        sock_raw = raw
+        seg = None
+        if route == "shm":
+            seg = ShmSegment.create(1 << 18)
+            placed = seg.allocate_and_write(payload)
+            assert placed is not None
+            pb, pmd = make_shm_pointer_batch(ptr_schema, *placed)
+            sock_raw = build_pointer(spec.name, pb, pmd, {b"vgi_rpc.shm_segment_name": seg.name.encode(),
+                                                          b"vgi_rpc.shm_segment_size": str(seg.size).encode()})
+        elif route == "external":
+            url = storage.upload(blob, payload.schema)
+            pb, pmd = make_external_location_batch(ptr_schema, url, sha256=hashlib.sha256(blob).hexdigest() if ch.choose(2, "sha") else None)
+            sock_raw = build_pointer(spec.name, pb, pmd)
 
         def root() -> None:
-            conn = s1.make_conn(sched, ctx.ch, ["pipe", "unix", "tcp"][ch.choose(3, "transport")], "c", buggify=False)
+            conn = s1.make_conn(sched, ctx.ch, tkind, "c", buggify=False)
             s1.serve_conn(sched, server, conn)
-            conn.client.writer.write(raw)
+            conn.client.writer.write(sock_raw)
             st, info = read_one_stream(conn.client.reader)
             is_err = st == "ok" and any(md.get(b"vgi_rpc.log_level") == b"EXCEPTION" for _, md in info)
             if st == "ok" and spec.kind != "unary" and not is_err:
@@ -281,7 +351,11 @@ def run(ctx: RunCtx) -> None:
             conn.client.close()
 
         mark = len(world.rec)
-        sched.run(root)
+        try:
+            sched.run(root)
+        finally:
+            shm_mod.SharedMemory = saved_shm  # type: ignore[misc]
+            ext_mod.fetch_url = saved_fetch  # type: ignore[assignment]
         ctx.absorb_sched(sched)
         if sched.deadlocked or out.get("st") != "ok":
             ctx.violation("C06", "no-response", f"socket:{site}", f"{kind}: {detail}: no decodable response ({out.get('st')}, "
@@ -293,11 +367,13 @@ def run(ctx: RunCtx) -> None:
         # ---------------------------------------------------------------- HTTP leg
         sched2 = Scheduler(ctx.ch, ctx.log)
         det = s2.DetRandom(ctx.ch.subrng("rnd"))
-        with s2.http_seams(sched2, det):
-            cluster = s2.Cluster(ctx, sched2, svc.protocol, svc.impl_cls, app_kwargs=dict(token_key=b"k" * 32, compression_level=None))
+        with s2.http_seams(sched2, det, storage=storage if route == "external" else None):
+            cluster = s2.Cluster(ctx, sched2, svc.protocol, svc.impl_cls, app_kwargs=dict(token_key=b"k" * 32, compression_level=None),
+                                 external_config=ext_cfg if route == "external" else None)
             path = f"/{spec.name}" if spec.kind == "unary" else f"/{spec.name}/init"
             mark = len(world.rec)
-            res = cluster.deliver(0, "POST", path, raw, {"Content-Type": "application/vnd.apache.arrow.stream"})
+            http_raw = sock_raw if route == "external" else raw  # shared memory does not exist over HTTP: that leg goes inline
+            res = cluster.deliver(0, "POST", path, http_raw, {"Content-Type": "application/vnd.apache.arrow.stream"})
             evs = invoked_since(mark)
             marker = {k.lower(): v for k, v in res.headers.items()}.get("x-vgi-rpc-error", "").lower() == "true"
             body_streams = wire.read_ipc_streams(res.content)
@@ -307,7 +383,12 @@ def run(ctx: RunCtx) -> None:
                 if evs:
                     check_invocation("http", evs, True)
                     return
-                if res.status_code != 400:
+                # a pointer that declares one schema over a payload of another is refused by the external resolver; that
+                # refusal is an integrity failure of the pointer (C30) and is reported on the server-error path
+                pointer_lies = route == "external" and ptr_schema_declared and not payload.schema.equals(pa.schema(decl))
+                if pointer_lies and res.status_code == 200 and marker and has_exc:
+                    ch.probe("external-pointer-schema-mismatch-refused-as-server-error")
+                elif res.status_code != 400:
                     ctx.violation("C06", "status", f"http:{site}:{res.status_code}", f"non-conforming request ({kind}: {detail}) answered "
                                   f"with HTTP {res.status_code} (marker={marker}), expected 400")
                     return
